@@ -1534,13 +1534,14 @@ func (m *repoManager) setNodeNote(uuid dvid.UUID, note string) error {
 		return ErrInvalidVersion
 	}
 
+	// lock order: the repo before the node, as everywhere else
+	r.Lock()
 	node.Lock()
 	node.note = note
 	t := time.Now()
-	r.Lock()
 	r.updated, node.updated = t, t
-	r.Unlock()
 	node.Unlock()
+	r.Unlock()
 	return r.save()
 }
 
